@@ -13,6 +13,7 @@
 #include <stdio.h>
 #include <locale.h>
 #include <string.h>
+#include <stdlib.h>
 
 #define NEL(a) (sizeof(a) / sizeof((a)[0]))
 #define MAXP 4096
@@ -28,9 +29,38 @@ static int idof(const void *p) {
 static void arr_begin(const char *k) { printf("\"%s\":[", k); }
 static void arr_end(void) { printf("],\n"); }
 
+/* translator validation: the static helpers themselves, per code point, in the format of the model's `tab` sweep */
+static int tab_mode(uint32_t lo, uint32_t hi) {
+    uint32_t c; unsigned long n = 0;
+    for (c = lo; c < hi && c <= _UNICODE_MAX; c++) {
+        wchar_t d[8]; int l, i, cc, x;
+        l = _decomp_s(d, 8, c, false);
+        cc = _combin_class(c);
+        x = isExclusion(c) ? 1 : 0;
+        if (!l && !cc && !x) continue;
+        printf("cp=%x", c);
+        if (l > 0) { printf(" d="); for (i = 0; i < l; i++) printf("%s%x", i ? "," : "", (unsigned)d[i]); }
+        if (l < 0) printf(" derr=%d", -l);
+        if (cc) printf(" cc=%d", cc);
+        if (x) printf(" x=1");
+        printf("\n"); n++;
+    }
+    printf("id=0 done=1 n=%lu\n", n);
+    return 0;
+}
+/* `a b` pairs (hex) on stdin -> _composite_cp(a, b) */
+static int comp_mode(void) {
+    unsigned a, b;
+    while (scanf("%x %x", &a, &b) == 2) printf("%x %x %x\n", a, b, (unsigned)_composite_cp(a, b));
+    return 0;
+}
+
 int main(int argc, char **argv) {
     size_t i, j, k;
-    const char *loc = setlocale(LC_ALL, argc > 1 ? argv[1] : "C.UTF-8");
+    const char *loc;
+    if (argc > 3 && !strcmp(argv[1], "tab")) return tab_mode((uint32_t)strtoul(argv[2], 0, 16), (uint32_t)strtoul(argv[3], 0, 16));
+    if (argc > 1 && !strcmp(argv[1], "comp")) return comp_mode();
+    loc = setlocale(LC_ALL, argc > 1 ? argv[1] : "C.UTF-8");
     printf("{\n\"locale\":\"%s\",\n", loc ? loc : "(null)");
     printf("\"unicode_max\":%u,\"cc_seq_size\":%d,\"cc_seq_step\":%d,\n", (unsigned)_UNICODE_MAX, CC_SEQ_SIZE, CC_SEQ_STEP);
     printf("\"hangul\":{\"SBase\":%u,\"SFinal\":%u,\"SCount\":%u,\"NCount\":%u,\"LBase\":%u,\"LFinal\":%u,\"LCount\":%u,"
